@@ -832,7 +832,9 @@ fn cmd_c10(n: usize) -> (u64, Vec<String>) {
     let pieces = ["text\n", "\n", "# h\n", "---\n---\n", "---\nfoo: 1\n---\n", "```scrut\n$ echo a\na\n```\n", "```scrut\n# c\n$ echo a\n```\n", "```scrut\n# c\n```\n",
         "```scrut\n```\n", "```sh\nx\n```\n", "````scrut {timeout: 3s}\n$ echo a\n```\na\n````\n", "```\n", "```scrut\n$ echo b\n> c\nb\n[1]\n```\n", "```scrut\nnot a command\n```\n", "```scrut\n\n$ echo c\nc\n```\n", "```scrut\nearlier\n$ echo d\n```\n",
         // kept expectation lines that START like a fence but are not bare backticks
-        "````scrut\n$ echo a\n```scrut {timeout: 3s}\na\n````\n", "````scrut\n$ echo a\n```sh\n````\n"];
+        "````scrut\n$ echo a\n```scrut {timeout: 3s}\na\n````\n", "````scrut\n$ echo a\n```sh\n````\n",
+        // a multi-line command with a BLANK continuation line (`> ` and nothing else), as in a here-document (round 12)
+        "```scrut\n$ cat <<E\n> a\n> \n> E\na\n```\n"];
     let line_shapes: Vec<String> = shapes.iter().map(|l| format!("{l}\n")).collect();
     for (alphabet, bound) in [(pieces.iter().map(|s| s.to_string()).collect::<Vec<_>>(), n), (line_shapes, n.min(4))] {
         let mut idx: Vec<usize> = vec![];
@@ -1549,6 +1551,30 @@ fn cmd_leaves(which: &str) -> (u64, Vec<String>) {
                     let exps: Vec<String> = t.map(|t| t.expectations.iter().map(|e| e.original_string()).collect()).unwrap_or_default();
                     let ok = t.is_some() && t.unwrap().exit_code.is_none() && exps.iter().all(|e| e == "hi");
                     if !ok { report(class, format!("cram: the command `{cmd}` is read with exit code {:?} and expectations {exps:?}: a line written BEFORE the command (not after it) was given to it; expected an error or exactly the lines written after the command", t.and_then(|t| t.exit_code)), doc, &mut bad); }
+                }
+            }
+        }
+    }
+    // Cram is whitespace-significant (round 12): every body line made of k >= 2 spaces followed by `rest` is the expectation written
+    // after the two-space indentation -- whitespace-only ones included, trailing whitespace kept -- and does not end the test
+    if which == "cram" {
+        for ws in ["  ", "   ", "    ", "  \t", "  x  ", "  x \t", "   x"] {
+            for (before, after) in [(vec![], vec!["b"]), (vec!["a"], vec!["b"]), (vec!["a"], vec![])] {
+                n += 1;
+                let mut want: Vec<String> = before.iter().map(|s| s.to_string()).collect();
+                want.push(ws[2..].to_string());
+                want.extend(after.iter().map(|s| s.to_string()));
+                let doc = format!("T\n  $ echo x\n{}\n", want.iter().map(|l| format!("  {l}")).collect::<Vec<_>>().join("\n"));
+                let maker = std::sync::Arc::new(ExpectationMaker::new(RuleRegistry::default()));
+                match std::panic::catch_unwind(std::panic::AssertUnwindSafe(|| CramParser::new(maker, 2).parse(&doc))) {
+                    Err(_) => report("whitespace-line", format!("cram: parse panics"), &doc, &mut bad),
+                    Ok(Err(e)) => report("whitespace-line", format!("cram: parse error {e}"), &doc, &mut bad),
+                    Ok(Ok((_, tcs))) => {
+                        let exps: Vec<String> = tcs.first().map(|t| t.expectations.iter().map(|e| e.original_string()).collect()).unwrap_or_default();
+                        if !(tcs.len() == 1 && tcs[0].shell_expression == "echo x" && tcs[0].title == "T" && exps == want) {
+                            report("whitespace-line", format!("cram: {} test case(s), the first with title {:?} and expectations {exps:?}; written: one test `echo x` titled \"T\" with the expectation lines {want:?} (indentation removed, inner and trailing whitespace kept)", tcs.len(), tcs.first().map(|t| t.title.clone())), &doc, &mut bad);
+                        }
+                    }
                 }
             }
         }
